@@ -324,7 +324,53 @@ fn describe(c: &Case) -> serde_json::Value {
     })
 }
 
+/// One template is a spread of a value that cannot be split into words (an unclosed quote). What such a spread
+/// contributes is not documented; what the templates before and after it contribute is: they are bound on their own.
+fn case_unsplittable_spread(t: &mut Tape, st: &mut Stats) -> Verdict {
+    let mut c = gen_case(t, st);
+    let p = t.below(c.tmpls.len() + 1);
+    let bad = t.pick(&["say \"hello", "\"", "a \"b c", "x \"unterminated tail ", "\"open word"]).to_string();
+    c.tmpls.insert(p, Tmpl::Spread("zzbad".to_string()));
+    c.vars.retain(|(k, _)| k != "zzbad");
+    c.vars.push(("zzbad".to_string(), bad));
+    let vars: HashMap<String, String> = c.vars.iter().cloned().collect();
+    let before = reference(&c.tmpls[..p], &vars);
+    let after = reference(&c.tmpls[p + 1..], &vars);
+    let mut si = ScriptInstruction::new();
+    si.command = Some("cap".to_string());
+    si.arguments = Some(c.tmpls.iter().map(|t| arg_text(t, '\\')).collect());
+    let ins = Instruction { meta_info: InstructionMetaInfo::new(), instruction_type: InstructionType::Script(si) };
+    hz_reset();
+    let mut ctx = bare_context();
+    let mut variables = vars.clone();
+    let (mut env, _o) = make_env(None);
+    let _ = runner::run_instruction(&mut ctx.commands, &mut variables, &mut ctx.state, &vec![], ins, 0, &mut env);
+    let got = with_hz(|h| h.trace.last().map(|e| e.args.clone()));
+    st.class("spread-of-a-value-that-cannot-be-split");
+    if !after.is_empty() {
+        st.class("templates-after-a-spread-that-cannot-be-split");
+    }
+    match got {
+        None => fail("C02/not-invoked", describe(&c)),
+        Some(got) => {
+            let ok = got.len() >= before.len() + after.len() && got[..before.len()] == before[..] && got[got.len() - after.len()..] == after[..];
+            if ok {
+                Verdict::Pass(if after.is_empty() { None } else { Some(fp(&(format!("{:?}", c.tmpls), &c.vars))) })
+            } else {
+                let mut d = describe(&c);
+                d["expected_before_the_spread"] = json!(before);
+                d["expected_after_the_spread"] = json!(after);
+                d["received"] = json!(got);
+                fail("C02/neighbours-of-an-unsplittable-spread", d)
+            }
+        }
+    }
+}
+
 fn case_direct(t: &mut Tape, st: &mut Stats) -> Verdict {
+    if t.chance(1, 12) {
+        return case_unsplittable_spread(t, st);
+    }
     let c = gen_case(t, st);
     let vars: HashMap<String, String> = c.vars.iter().cloned().collect();
     let expected = reference(&c.tmpls, &vars);
@@ -437,7 +483,7 @@ fn case_text(t: &mut Tape, st: &mut Stats) -> Verdict {
 pub fn property() -> Property {
     Property {
         id: "C02",
-        rule: "1..8 (one case in fifty: 20..120) argument templates (literal text free of $ % \\, ${name}, \\${name}, whole-argument %{name}) over 1..6 names (incl. empty, odd and 40..400-character names) and an environment of arbitrary-Unicode values (some of 4..70 KiB, some spread values of 101..700 words) biased to syntax look-alikes that refer to existing names; received arguments compared (count, order, text) with a reference expander. Drivers: direct (run_instruction on an in-memory instruction) and text (rendered line run by run_script, values delivered at run time by 'v = put i'). Non-trivial: a substituted value with a non-alphanumeric character, or a spread of != 1 words; distinct by (templates, environment) hash",
+        rule: "1..8 (one case in fifty: 20..120) argument templates (literal text free of $ % \\, ${name}, \\${name}, whole-argument %{name}) over 1..6 names (incl. empty, odd and 40..400-character names) and an environment of arbitrary-Unicode values (some of 4..70 KiB, some spread values of 101..700 words) biased to syntax look-alikes that refer to existing names; received arguments compared (count, order, text) with a reference expander; one direct case in twelve holds a spread of a value that cannot be split into words (an unclosed quote): what the templates before and after it contribute is compared, what the spread itself contributes is not. Drivers: direct (run_instruction on an in-memory instruction) and text (rendered line run by run_script, values delivered at run time by 'v = put i'). Non-trivial: a substituted value with a non-alphanumeric character, or a spread of != 1 words; distinct by (templates, environment) hash",
         assumptions: &[
             "spread words never start with '\"' and never contain '#' (the re-split honours quotes and comments; the property speaks of space-separated words)",
             "names are free of the space, tab, CR, LF (other white space only inside a name), '=' and '}' and contain no backslash and not the openers '${' / '%{' (inside an escaped reference the name is scanned as ordinary text, so such a name is itself read as syntax); literal text is free of '$', '%' and backslash",
@@ -450,7 +496,7 @@ pub fn property() -> Property {
                     Tier::Thorough => Plan::Random { cases: 15_000_000, max_len: 300 },
                 },
                 case: case_direct,
-                min_classes: &[("value-looks-like-expansion", 5000), ("undefined-name", 5000), ("empty-name", 1000), ("name-longer-than-128-bytes", 1000), ("twenty-or-more-arguments", 1000), ("spread-of-over-100-words", 300), ("value-longer-than-4096-bytes", 1000), ("spread-0-words", 2000), ("spread-spaces-only", 300), ("escaped-reference", 5000), ("spread-word-starts-with-backslash", 300)],
+                min_classes: &[("value-looks-like-expansion", 5000), ("undefined-name", 5000), ("empty-name", 1000), ("name-longer-than-128-bytes", 1000), ("twenty-or-more-arguments", 1000), ("spread-of-over-100-words", 300), ("value-longer-than-4096-bytes", 1000), ("spread-0-words", 2000), ("spread-spaces-only", 300), ("escaped-reference", 5000), ("spread-word-starts-with-backslash", 300), ("templates-after-a-spread-that-cannot-be-split", 3000)],
             },
             Section {
                 name: "text",
